@@ -80,8 +80,12 @@ def check(ctx):
            'the pool has exactly one worker, so the thread that answered current_thread() is the thread that runs '
            'the function', short(withs[0].ast.items[0].context_expr) if withs else 'missing')
     runs = [c for c in calls(inner, 'apply_async')]
-    ok = bool(runs) and norm(runs[0].func.value) == 'pool' and norm(runs[0].args[0]) == 'func' and \
-        [norm(a) for a in runs[0].args[1:]] == ['args', 'kwargs']
+    def _arg(c, pos, name):
+        if len(c.args) > pos:
+            return norm(c.args[pos])
+        return next((norm(k.value) for k in c.keywords if k.arg == name), None)
+    ok = bool(runs) and norm(runs[0].func.value) == 'pool' and _arg(runs[0], 0, 'func') == 'func' and \
+        _arg(runs[0], 1, 'args') == 'args' and _arg(runs[0], 2, 'kwds') == 'kwargs'
     ctx.ob(rule, fkey(inner, rule, 'function-runs-in-that-pool'), ok, inner.where,
            'the function is submitted to the same pool with its positional and keyword arguments',
            short(runs[0]) if runs else 'missing')
@@ -141,8 +145,15 @@ def check(ctx):
     cfgo = build_cfg(fn)
     t = [t for t in try_statements(fn) if any(call_name(c) == '_inner_run' for b in t.body for c in ast.walk(b)
                                               if isinstance(c, ast.Call))]
+    def _returns_inner(t_):
+        # `return _inner_run()` in the try body, or `r = _inner_run()` there and `return r` in its else part
+        held = {norm(a.targets[0]) for a in t_.body if isinstance(a, ast.Assign) and isinstance(a.value, ast.Call) and
+                call_name(a.value) == '_inner_run'}
+        return any(isinstance(s_, ast.Return) and isinstance(s_.value, ast.Call) and call_name(s_.value) == '_inner_run'
+                   for s_ in t_.body) or \
+            any(isinstance(s_, ast.Return) and s_.value is not None and norm(s_.value) in held for s_ in t_.orelse)
     ok = bool(t) and [nm for h in t[0].handlers for nm in handler_type_names(h)] == ['TimeoutError'] and \
-        any(isinstance(s, ast.Return) for s in t[0].body)
+        _returns_inner(t[0])
     ctx.ob(rule, fkey(fn, rule, 'outer-propagates'), ok, fn.where,
            'the wrapper returns the inner result, swallows only the inner TimeoutError (to drop the frame) and '
            're-raises TimeoutError afterwards', '')
